@@ -146,7 +146,7 @@ func specModesOK(env *Pass1) bool {
 //@ loop 2 invariant specModesOK(env)
 //@ ensures[T.mode] specModesOK(env)
 //@ ensures[nohandler.opcode@C07] specIsOpcodeStmt(node) && !specHasHandler(specOpcodeOf(node)) ==> vcLoggedError()
-//@ ensures[nohandler.mnemonic@C07] specIsMnemonicStmt(node) && specNoOperands(node) && !specHasHandler(specMnemonicOf(node)) ==> vcLoggedError()
+//@ ensures[nohandler.mnemonic@C07] specIsMnemonicStmt(node) && !specHasHandler(specMnemonicOf(node)) ==> vcLoggedError()
 //@ assigns Pass1.LOC, Pass1.BitMode, Pass1.OutputFormat, Pass1.SourceFileName, Pass1.CurrentSection, Pass1.MacroMap, Pass1.NextImmJumpID, Pass1.DollarPosition, Pass1.GlobalSymbolList, Pass1.ExternSymbolList, ocodeClient.Ocodes, CodeGenContext.BitMode, map[string]int32, map[string]ast.Exp, []string
 
 
